@@ -346,7 +346,13 @@ def run_property(prop, tier, seed, rebaseline=False, only_units=None):
     n_obl = sum(1 for o in obligations if o['status'] != 'known-finding')
     n_dis = sum(1 for o in obligations if o['status'] == 'discharged')
     rnd = random.Random(seed)
-    sample_src = [o for o in obligations if o['status'] == 'discharged']
+    real_fns = set()
+    for u, r in verus_results.items():
+        for e in r.get('extracted', []):
+            if e['kind'] == 'fn':
+                real_fns.add(f'{u} :: {e["id"]}')
+    sample_src = [o for o in obligations if o['status'] == 'discharged' and (o['id'] in real_fns or o['engine'] != 'verus')] \
+        or [o for o in obligations if o['status'] == 'discharged']
     samples = rnd.sample(sample_src, min(6, len(sample_src)))
     functions_under_contract = []
     rewrites = []
@@ -438,7 +444,12 @@ def run_property(prop, tier, seed, rebaseline=False, only_units=None):
           'assumptions': TRUSTED_BASE + cfg.get('assumptions', []), 'wall_s': wall,
           'violations': len(violations)}
     os.makedirs(EVID, exist_ok=True)
-    json.dump(ev, open(os.path.join(EVID, f'{prop}.json'), 'w'), indent=1)
+    if rebaseline or only_units:
+        # partial / maintenance runs never overwrite the evidence file of the registered check
+        os.makedirs(os.path.join(ROOT, 'build'), exist_ok=True)
+        json.dump(ev, open(os.path.join(ROOT, 'build', f'evidence-partial-{prop}.json'), 'w'), indent=1)
+    else:
+        json.dump(ev, open(os.path.join(EVID, f'{prop}.json'), 'w'), indent=1)
 
     # ------------------------------------------------------------------ report
     for ln in lines:
